@@ -282,7 +282,7 @@ class BVal:
 
 
 def abstract_val(v):
-    if v is INV or (isinstance(v, tuple) and v == INV):
+    if v is INV or (isinstance(v, tuple) and len(v) == 1 and isinstance(v[0], str) and v[0] == 'inv'):
         return ['inv']
     if v is None:
         return ['n']
